@@ -430,6 +430,15 @@ def make_machine(ctx, last):
         def observe(self, what):
             self._do({"op": "obs", "what": what})
 
+        @precondition(lambda self: self.runner.live.depth == 0)
+        @rule(g=st.lists(st.sampled_from([0.25, 0.5, 1.0, 1.5, 2.0, 3.0]), min_size=4, max_size=4),
+              what=st.sampled_from(["times", "times", "duration", "plot_full", "copy", "acq"]))
+        def override_observe_leave(self, g, what):
+            """Another interleaving the quantifier names: look at the circuit under a temporary setting, then leave it."""
+            self._do({"op": "enter", "g": g})
+            self._do({"op": "obs", "what": what})
+            self._do({"op": "leave"})
+
         def teardown(self):
             try:
                 self.runner.finish()
